@@ -77,7 +77,7 @@ impl TargetModel {
     }
 }
 
-/// operand form: 0 long, 1 short (if it fits), 2 long dual, 3 short dual, 4 `From<&long>` (fresh object)
+/// operand form: 0 long, 1 short (if it fits), 2 long dual, 3 short dual, 4..8 `From` impls (fresh object), 9 `clone_from` of a fresh target, 10 `clone()` of one
 fn init(t: &mut FuzzyHashCompareTarget, c: &Content, form: usize) -> Result<bool, String> {
     let fits = c.2.len() <= 32;
     match form {
@@ -90,6 +90,9 @@ fn init(t: &mut FuzzyHashCompareTarget, c: &Content, form: usize) -> Result<bool
         6 => guarded(|| *t = FuzzyHashCompareTarget::from(LongDualFuzzyHash::new_from_internals_near_raw(c.0, &c.1, &c.2)))?,
         7 if fits => guarded(|| *t = FuzzyHashCompareTarget::from(&DualFuzzyHash::new_from_internals_near_raw(c.0, &c.1, &c.2)))?,
         8 if fits => guarded(|| *t = FuzzyHashCompareTarget::from(FuzzyHash::new_from_internals_near_raw(c.0, &c.1, &c.2)))?,
+        // copies of a fresh target: clone_from into the (dirty) target, and clone()
+        9 => guarded(|| t.clone_from(&FuzzyHashCompareTarget::from(&LongFuzzyHash::new_from_internals_near_raw(c.0, &c.1, &c.2))))?,
+        10 => guarded(|| *t = FuzzyHashCompareTarget::from(&LongFuzzyHash::new_from_internals_near_raw(c.0, &c.1, &c.2)).clone())?,
         _ => return Ok(false),
     }
     Ok(true)
@@ -147,7 +150,7 @@ impl Model for TargetModel {
     }
     fn actions(&self, _s: &TS, a: &mut Vec<(usize, usize)>) {
         for i in 0..self.hs.len() {
-            for f in 0..9 {
+            for f in 0..11 {
                 a.push((i, f));
             }
         }
@@ -466,7 +469,7 @@ pub fn run(ctx: &Ctx) -> Report {
     }
     rep.set(
         "target_space",
-        json!({"corpus": nh, "operand_forms": 9, "states": b.states, "transitions": b.transitions, "expected_states_if_property_holds": nh + 1,
+        json!({"corpus": nh, "operand_forms": 11, "states": b.states, "transitions": b.transitions, "expected_states_if_property_holds": nh + 1,
                "closed": !b.capped, "stateright_unique": sr.unique, "stateright_generated": sr.generated, "stateright_next_state_calls": t_trans, "bfs_depth": b.depth}),
     );
     // position array: depth-bounded over clear / init_from (the array is not Clone; histories are replayed)
@@ -549,7 +552,7 @@ pub fn run(ctx: &Ctx) -> Report {
     );
     rep.set(
         "rule",
-        "comparison target: BFS over the real FuzzyHashCompareTarget under init_from(h) for every h of a corpus of normalized hashes with differing lengths (0, 1, 7, 8, 32, 33, 63, 64 symbols), symbols and block sizes, each given as LongFuzzyHash, FuzzyHash, LongDualFuzzyHash, DualFuzzyHash operands to init_from and through the by-reference and by-value From impls; the space closes at |H|+1 states iff nothing is carried over, so initialisation sequences of ANY length are covered; in every state: is_valid, full_eq a fresh target, is_equiv exactly the last hash, compare and is_comparison_candidate against every corpus hash equal the fresh target's, the block hash accessors represent the strings.  position array: all clear / init_from / refused init_from (5 out-of-contract arguments: symbols 64 / 255, 65 / 256 / 320 symbols; the panic is caught; afterwards only validity is demanded until the next successful initialisation) histories to the depth bound over a string corpus (not normalized strings included): equals a fresh array, len, is_valid, is_valid_and_normalized, is_equiv, has_common_substring, edit_distance agree with the string.",
+        "comparison target: BFS over the real FuzzyHashCompareTarget under init_from(h) for every h of a corpus of normalized hashes with differing lengths (0, 1, 7, 8, 32, 33, 63, 64 symbols), symbols and block sizes, each given as LongFuzzyHash, FuzzyHash, LongDualFuzzyHash, DualFuzzyHash operands to init_from and through the by-reference and by-value From impls, `clone_from` of a fresh target into the used one and `clone()`; the space closes at |H|+1 states iff nothing is carried over, so initialisation sequences of ANY length are covered; in every state: is_valid, full_eq a fresh target, is_equiv exactly the last hash, compare and is_comparison_candidate against every corpus hash equal the fresh target's, the block hash accessors represent the strings.  position array: all clear / init_from / refused init_from (5 out-of-contract arguments: symbols 64 / 255, 65 / 256 / 320 symbols; the panic is caught; afterwards only validity is demanded until the next successful initialisation) histories to the depth bound over a string corpus (not normalized strings included): equals a fresh array, len, is_valid, is_valid_and_normalized, is_equiv, has_common_substring, edit_distance agree with the string.",
     );
     rep
 }
